@@ -39,7 +39,7 @@ SIZES = {
     "C10": {"quick": (4000, 3000), "thorough": (40000, 160000)},
     "C17": {"quick": (4000, 3000), "thorough": (40000, 160000)},
     "C19": {"quick": (3000, 3000), "thorough": (30000, 120000)},
-    "C16": {"quick": (0, 1), "thorough": (0, 1)},
+    "C16": {"quick": (200, 1600), "thorough": (2000, 30000)},
 }
 
 
@@ -73,7 +73,7 @@ def cmd_tranche(a):
             rng = core.run_rng("warmup", mod.PROP_ID, i)
             cfg = mod.gen_config(rng, a.tier)
             try:
-                core.execute(mod.RunClass, cfg, rng=rng, max_steps=cfg["steps"])
+                core.execute(mod.RunClass, cfg, rng=rng, max_steps=min(cfg["steps"], 40))
             except Exception:
                 pass
         if hasattr(mod, "drain_batch_stats"):
@@ -131,6 +131,8 @@ def cmd_tranche(a):
 def cmd_replay(a):
     with open(a.path) as f:
         doc = json.load(f)
+    if doc.get("batch"):
+        return replay_batch(doc, a.path)
     mode = doc.get("mode", "JIT")
     want = "1" if mode == "INTERP" else "0"
     if os.environ.get("NUMBA_DISABLE_JIT", "0") != want or os.environ.get("PYTHONHASHSEED") != "0":
@@ -142,13 +144,7 @@ def cmd_replay(a):
     if hasattr(mod, "setup"):
         mod.setup()
     if doc.get("batch"):
-        ok, rec = mod.replay_batch(doc)
-        print("replayed batch statistic:", json.dumps(rec, sort_keys=True))
-        if not ok:
-            print("VIOLATION property=%s replay=%s" % (doc["property"], a.path))
-            return 1
-        print("no violation reproduced")
-        return 0
+        return replay_batch(doc, a.path)
     r = core.execute(mod.RunClass, doc["cfg"], ops=doc["ops"], want_log=a.log)
     if a.log:
         for line in r["log"]:
@@ -167,6 +163,37 @@ def cmd_replay(a):
     return 1
 
 
+def replay_batch(doc, path):
+    """statistical oracles have no operation sequence to minimise: the replay file is the
+    batch descriptor; replay regenerates exactly the runs that fed the statistic and must
+    obtain the same number."""
+    from collections import Counter
+    pid = doc["property"]
+    mod = prop_module(pid)
+    n_interp, n_jit = doc["sizes"]
+    env = {"VERIF_FILTER": json.dumps(doc["filter"])} if doc.get("filter") else None
+    parts = collect(pid, doc["seed"], doc["tier"], n_interp, n_jit, env)
+    if parts is None:
+        return 2
+    stats = Counter()
+    for p in parts:
+        stats.update(p["stats"])
+    for name, ok, rec in mod.batch_oracles({"stats": stats, "parts": parts}, None):
+        if name == doc["oracle"]:
+            print("replayed batch statistic:", json.dumps(rec, sort_keys=True, default=repr))
+            same = all(rec.get(k) == doc["record"].get(k) for k in ("n", "chi2", "z", "ones", "products"))
+            if not same:
+                print("DIFFERENT from the recorded statistic: %s" % json.dumps(doc["record"], default=repr))
+                return 3
+            if not ok:
+                print("VIOLATION property=%s replay=%s" % (pid, path))
+                return 1
+            print("no violation reproduced")
+            return 0
+    print("statistic %s not produced by the regenerated batch" % doc["oracle"])
+    return 0
+
+
 # --------------------------------------------------------------------- check
 def launch_tranche(pid, mode, seed, tier, lo, hi, workers, out):
     cmd = [PY, os.path.abspath(__file__), "tranche", pid, "--mode", mode, "--seed", str(seed),
@@ -174,28 +201,19 @@ def launch_tranche(pid, mode, seed, tier, lo, hi, workers, out):
     return subprocess.Popen(cmd, env=child_env(mode), cwd=VERIF)
 
 
-def cmd_check(a):
-    import core
-    pid = a.prop
-    mod_name = "props." + pid.lower()
-    seed = int(os.environ.get("VERIF_SEED", "0")) if a.seed is None else a.seed
-    tier = a.tier or os.environ.get("VERIF_TIER", "quick")
-    n_interp, n_jit = SIZES[pid][tier]
-    if a.runs:
-        tot = n_interp + n_jit
-        n_interp = int(a.runs * n_interp / tot)
-        n_jit = a.runs - n_interp
+def collect(pid, seed, tier, n_interp, n_jit, env_extra=None):
+    """run the two tranches (INTERP and JIT configurations) and return their results."""
     ncpu = min(16, os.cpu_count() or 1)
     scratch = tempfile.mkdtemp(prefix="verif-%s-" % pid, dir=os.environ.get("TMPDIR", "/tmp"))
-    t0 = time.time()
     procs = []
+    if env_extra:
+        os.environ.update(env_extra)
     try:
         if n_interp and n_jit:
             w_i = max(1, ncpu // 2) if tier == "quick" else max(1, ncpu // 4)
             w_j = max(1, ncpu - w_i)
         else:
             w_i = w_j = ncpu
-        outs = []
         if n_interp:
             o = os.path.join(scratch, "interp.pkl")
             procs.append(("INTERP", launch_tranche(pid, "INTERP", seed, tier, 0, n_interp, w_i, o), o))
@@ -207,19 +225,37 @@ def cmd_check(a):
             rc = p.wait()
             if rc != 0 or not os.path.exists(o):
                 print("HARNESS-ERROR: tranche %s exited %s" % (mode, rc))
-                return 2
+                return None
             with open(o, "rb") as f:
                 parts.append(pickle.load(f))
+        return parts
     finally:
         for _, p, _ in procs:
             if p.poll() is None:
                 p.kill()
         shutil.rmtree(scratch, ignore_errors=True)
+        for k in (env_extra or {}):
+            os.environ.pop(k, None)
+
+
+def cmd_check(a):
+    pid = a.prop
+    seed = int(os.environ.get("VERIF_SEED", "0")) if a.seed is None else a.seed
+    tier = a.tier or os.environ.get("VERIF_TIER", "quick")
+    n_interp, n_jit = SIZES[pid][tier]
+    if a.runs:
+        tot = n_interp + n_jit
+        n_interp = int(a.runs * n_interp / tot)
+        n_jit = a.runs - n_interp
+    t0 = time.time()
+    parts = collect(pid, seed, tier, n_interp, n_jit)
+    if parts is None:
+        return 2
     wall = time.time() - t0
-    return finish_check(pid, seed, tier, parts, wall)
+    return finish_check(pid, seed, tier, parts, wall, (n_interp, n_jit))
 
 
-def finish_check(pid, seed, tier, parts, wall):
+def finish_check(pid, seed, tier, parts, wall, sizes):
     import core
     from collections import Counter
     mod = prop_module(pid)
@@ -256,11 +292,13 @@ def finish_check(pid, seed, tier, parts, wall):
         for name, ok, rec in mod.batch_oracles(merged, None):
             batch_records.append(dict(rec, oracle=name, ok=bool(ok)))
             if not ok:
-                path = os.path.join(REPLAY_DIR, "%s-%s-batch-%s.json" % (pid, seed, name.split(".")[-1]))
+                safe = "".join(ch if ch.isalnum() else "_" for ch in name.split(".", 1)[-1])
+                path = os.path.join(REPLAY_DIR, "%s-%s-batch-%s.json" % (pid, seed, safe))
                 os.makedirs(os.path.dirname(path), exist_ok=True)
+                flt = mod.batch_filter(rec) if hasattr(mod, "batch_filter") else None
                 with open(path, "w") as f:
-                    json.dump({"property": pid, "batch": True, "seed": seed, "tier": tier,
-                               "oracle": name, "record": rec}, f, indent=1, default=repr)
+                    json.dump({"property": pid, "batch": True, "seed": seed, "tier": tier, "sizes": list(sizes),
+                               "filter": flt, "oracle": name, "record": rec}, f, indent=1, default=repr)
                 reports.append({"oracle": name, "replay": path, "idx": -1, "steps": 0, "detail": rec})
     # replay verification of every reported violation in a fresh interpreter
     verified = []
